@@ -515,6 +515,167 @@ func corpusWrite(key string, content []byte) {
 	os.WriteFile(d+"/"+name+".txt", append([]byte("# property=C04 key="+key+"\n"), content...), 0o644)
 }
 
+// Stage 2b: query history.  ONE loaded Config, identifiers that differ ONLY in Context, queried through the
+// Config-level predicates (IsSomeSource / IsSomeSink / IsSomeSanitizer / IsSomeValidator / IsSomeBacktracePoint) and
+// through the per-problem ones, in both orders and repeated; every answer must equal the stateless model
+// (disjunction of CodeId.matchesO over the specifications of the role) and, inside the proved domain, the
+// declarative truth.  Identification is a function of the location and the specification, not of earlier queries.
+func stageHistory(rep *lib.Report) {
+	r := lib.Rand("c04-history")
+	nBase, nSpecs := 40, 120
+	if lib.Thorough() {
+		nBase, nSpecs = 150, 500
+	}
+	ctxs := pools[fCtx]
+	ctxs = append(append([]string{}, ctxs...), "vmod.run1", "vmod.run2$3", "(*vmod/lib.T).Run")
+	type group struct{ ids []cidT }
+	var groups []group
+	var cids []cidT
+	for i := 0; i < nBase; i++ {
+		b := randCid(r)
+		b[fIface] = ""
+		var g group
+		for _, k := range r.Perm(len(ctxs))[:3+r.Intn(3)] {
+			c := b
+			c[fCtx] = ctxs[k]
+			g.ids = append(g.ids, c)
+			cids = append(cids, c)
+		}
+		groups = append(groups, g)
+	}
+	var specs []*specT
+	for i := 0; i < nSpecs; i++ {
+		t := cids[r.Intn(len(cids))]
+		mask := r.Intn(1<<len(regexFields)) &^ (1 << 2)
+		if r.Intn(4) > 0 {
+			mask |= 1 // mostly with a context
+		}
+		if r.Intn(2) == 0 {
+			mask &= 1 | 1<<1 | 1<<3 // context, package, method only
+		}
+		s := makeSpec(r, t, mask, false)
+		s.role = len(specs) % len(roles)
+		sp := s
+		specs = append(specs, &sp)
+	}
+	text := buildConfig(specs)
+	dir := lib.WorkDir(prop, "history")
+	os.WriteFile(dir+"/config.yaml", []byte(text), 0o644)
+	var in strings.Builder
+	for _, s := range specs {
+		in.WriteString(record("spec", s.c[:]...))
+	}
+	for _, c := range cids {
+		in.WriteString(record("cid", c[:]...))
+	}
+	in.WriteString("matrix\n")
+	out, err := lib.RunOracle("oracle_c04", []byte(in.String()))
+	if err != nil || len(out) != len(specs) {
+		rep.Fail("oracle-run-history", fmt.Sprintf("oracle failed: %v (%d lines for %d specs)", err, len(out), len(specs)), nil, true)
+		return
+	}
+	index := map[cidT]int{}
+	for j, c := range cids {
+		index[c] = j
+	}
+	// stateless expectation per (role, identifier): model and truth
+	expect := func(role string, c cidT) (model bool, truth bool, inDomain bool) {
+		inDomain = true
+		for i, s := range specs {
+			if roles[s.role] != role {
+				continue
+			}
+			if out[i][2+index[c]] == '1' {
+				model = true
+			}
+			t, ok := truthMatch(s.c, c)
+			if !ok {
+				inDomain = false
+			}
+			if t {
+				truth = true
+			}
+		}
+		return
+	}
+	some := func(cfg *config.Config, role string, c config.CodeIdentifier) bool {
+		switch role {
+		case "sources":
+			return cfg.IsSomeSource(c)
+		case "sinks":
+			return cfg.IsSomeSink(c)
+		case "sanitizers":
+			return cfg.IsSomeSanitizer(c)
+		case "validators":
+			return cfg.IsSomeValidator(c)
+		}
+		return cfg.IsSomeBacktracePoint(c)
+	}
+	queries, bad := 0, 0
+	for _, order := range []string{"forward", "reverse", "interleaved"} {
+		cfg, err := loadConfig(text) // one Config object per order: all its queries share whatever state it keeps
+		if err != nil {
+			rep.Fail("config-load-history", "generated configuration rejected by config.Load: "+err.Error(), []byte(text), true)
+			return
+		}
+		var seq []cidT
+		switch order {
+		case "forward":
+			for _, g := range groups {
+				seq = append(seq, g.ids...)
+			}
+		case "reverse":
+			for gi := len(groups) - 1; gi >= 0; gi-- {
+				for k := len(groups[gi].ids) - 1; k >= 0; k-- {
+					seq = append(seq, groups[gi].ids[k])
+				}
+			}
+		case "interleaved":
+			for k := 0; k < 6; k++ {
+				for _, g := range groups {
+					if k < len(g.ids) {
+						seq = append(seq, g.ids[k])
+					}
+				}
+			}
+		}
+		seq = append(seq, seq...) // and everything once more
+		for qi, c := range seq {
+			for _, role := range roles {
+				model, truth, inDom := expect(role, c)
+				var got, gotPer bool
+				func() {
+					defer func() { recover() }()
+					got = some(cfg, role, c.real())
+					for _, s := range specs { // the per-problem predicates on the same Config object
+						if roles[s.role] == role && realMatch(cfg, s, c.real()) == '1' {
+							gotPer = true
+						}
+					}
+				}()
+				queries++
+				rep.Case(fmt.Sprintf("hist|%s|%s|%v", order, role, c))
+				want := model
+				if inDom {
+					want = truth
+				}
+				if got != want || gotPer != want || (inDom && model != truth) {
+					bad++
+					content := []byte(fmt.Sprintf("configuration: %s/config.yaml (%d specifications, one Config object)\nquery order: %s, query #%d\nrole: %s\nidentifier: %v\nConfig.IsSome*: %v\ndisjunction of the per-problem predicates: %v\nstateless model (CodeId.matchesO): %v\ntruth (every given field found, incl. context): %v (in proved domain: %v)\nidentifiers queried before on this Config that differ only in Context: see the sequence in the driver (groups of %d..%d contexts)\n",
+						dir, len(specs), order, qi, role, c, got, gotPer, model, truth, inDom, 3, 5))
+					rep.Fail(fmt.Sprintf("history:%s:%s:%v", order, role, c),
+						fmt.Sprintf("identification depends on the query history: %s query #%d of %v on one loaded Config: IsSome(%s)=%v, per-problem disjunction=%v, stateless model=%v, truth=%v", order, qi, c, role, got, gotPer, model, truth),
+						content, false)
+				}
+			}
+		}
+	}
+	rep.Extra["history_queries"] = queries
+	rep.Extra["history_mismatches"] = bad
+	rep.Extra["history_identifier_groups_differing_only_in_context"] = len(groups)
+	rep.Extra["history_specs"] = len(specs)
+}
+
 func main() {
 	rep := lib.NewReport(prop)
 	rep.Rule = "regex: (pattern,text) pairs built from target texts (matching / near-miss / unrelated / random / invalid; anchored and unanchored); " +
@@ -522,6 +683,9 @@ func main() {
 		"sites: every call form x Call/Go/Defer x package layout in generated multi-package modules; distinct = distinct (specification, identifier/site) text"
 	stageRegex(rep)
 	stageMatrix(rep, nil)
+	if os.Getenv("VERIF_C04_SKIP_HISTORY") == "" {
+		stageHistory(rep)
+	}
 	rounds := 1
 	if lib.Thorough() {
 		rounds = 5
